@@ -35,15 +35,20 @@ ASSUMPTIONS = [
     "ball_inside is a theorem of exact arithmetic (ordered field) with the 2-norm as an oracle s (s*s = sum of squares); the binary64 "
     "result is only tested (inside the ball up to relative 1e-12)",
     "uniformity of the draws is a statistical property and is not claimed",
-    "the exhaustive tier uses n in 2..40 x folds in 2..min(n,12) x every seed 0..1024 (each (n, folds) cell with a stratified subset of the "
-    "seeds, every seed in several cells, a few cells with all 1025 seeds); the theorems cover every permutation",
+    "thorough tier: k-fold on every n in 2..40 x folds in 2..min(n,12) x every seed 0..1024 (the whole parameter domain); the random "
+    "splitter on every n x folds x train_per in 10..90 step 10 with 4 seeds each plus every train_per 10..90 for n in 1..40; the quick tier "
+    "uses 21 seeds per (n, folds) cell ({0,1,42,1023,1024} + 16 consecutive ones, the block moving through the domain); the theorems cover "
+    "every permutation, i.e. every seed",
+    "sample_from_ball is compared bit-for-bit in practice (tolerance 1e-12 allowed); its oracle accepts |x - x0| <= radius(1+1e-12) plus "
+    "half an ulp per coordinate of x (x0 + d cannot be represented more accurately when |x0| >> radius)",
 ]
-RULE = ("corpus; exhaustive n in 2..40 x folds in 2..min(n,12) for k-fold and x train_per in 10..90 step 10 for the random splitter, seeds "
-        "{0,1,42,1023,1024} + random ones (quick) / stratified over all 1025 seeds (thorough), sample values non-contiguous; random n up to 5000; "
-        "sampling with/without replacement for every count 0..n (small n) and random counts (large n); weighted sampling with zero weights; "
-        "gboost sampler in its five modes with 1-3 consecutive calls; sample_from_ball in dimensions 1..50, radii 1e-6..1e6; a few parameter "
-        "values outside the domain. A case is non-trivial when n mod folds != 0 (k-fold), when train_per*n/100 is not an integer (random), "
-        "when 0 < count (samplers), always for the ball; distinct by op text")
+RULE = ("corpus; exhaustive n in 2..40 x folds in 2..min(n,12) for k-fold (quick: seeds {0,1,42,1023,1024} + 16 moving through the domain per cell; "
+        "thorough: all 1025 seeds) and x train_per in 10..90 step 10 for the random splitter (1 / 4 seeds per cell) plus arbitrary train_per; "
+        "sample values non-contiguous, sometimes unordered; folds > n, n in {0,1}, folds at the domain bounds; parameter values outside the "
+        "domains; random n up to 5000; sampling with/without replacement for every count 0..n (n <= 16) and random counts (n up to 5000); "
+        "weighted sampling with zero weights and a single positive weight; the gboost sampler in its five modes with 1-3 consecutive calls; "
+        "sample_from_ball in every dimension 1..50, radii 1e-6..1e6. A case is non-trivial when n mod folds != 0 (k-fold), when "
+        "train_per*n/100 is not an integer (random), when count > 0 (samplers), mode != off (gboost), always for the ball; distinct by op text")
 FLAVOUR = {"quick": "plain", "thorough": "asan"}
 EXHAUSTIVE = {"quick": False, "thorough": True}
 HARNESS_TIMEOUT = 1800
